@@ -28,11 +28,11 @@ import (
 
 	warptypes "github.com/bcp-innovations/hyperlane-cosmos/x/warp/types"
 
+	orbiterkeeper "github.com/noble-assets/orbiter/v2/keeper"
 	adaptercomp "github.com/noble-assets/orbiter/v2/keeper/component/adapter"
 	dispatchercomp "github.com/noble-assets/orbiter/v2/keeper/component/dispatcher"
 	executorcomp "github.com/noble-assets/orbiter/v2/keeper/component/executor"
 	forwardercomp "github.com/noble-assets/orbiter/v2/keeper/component/forwarder"
-	orbiterkeeper "github.com/noble-assets/orbiter/v2/keeper"
 	orbtypes "github.com/noble-assets/orbiter/v2/types"
 	adaptertypes "github.com/noble-assets/orbiter/v2/types/component/adapter"
 	dispatchertypes "github.com/noble-assets/orbiter/v2/types/component/dispatcher"
